@@ -1,6 +1,7 @@
 """C06 — guards gate transitions exactly: composites, stateIn, cond alias, raise=false, missing=error."""
 from __future__ import annotations
 
+import copy
 import itertools
 import logging
 import multiprocessing as mp
@@ -44,10 +45,15 @@ M = {"k": "missing", "name": "m"}
 PT = {"k": "param", "name": "x", "params": {"want": True}}
 PF = {"k": "param", "name": "x", "params": {"want": False}}
 PC = {"k": "param", "name": "x", "params": {"want": True}, "computed": True}
+# parameterised guards whose declared / computed params are falsy values ({} 0 False "" []): `got` is true iff
+# the params were handed over, `lost` is true iff they were not
+FALSY = [{}, 0, False, "", []]
+PZ = [{"k": "pz", "idx": i, "computed": c, "want": w} for i in range(len(FALSY)) for c in (False, True) for w in ("got", "lost")]
 IA = {"k": "in", "state": ["a"]}
 II = {"k": "in", "state": ["b"]}
 CORE = [T, F, R, M]
 ALL = [T, F, R, M, PT, PF, PC, IA, II]
+D0_EXTRA = PZ
 POSITIONS = ["first", "second", "ancestor", "choose", "enqueue", "twin"]
 FORMS = ["children", "params.guards", "params.guard"]
 
@@ -64,8 +70,8 @@ def _d1(atoms):
 
 
 def formulas_exhaustive():
-    d0 = list(ALL)
-    d1_all = _d1(ALL)
+    d0 = list(ALL) + list(D0_EXTRA)
+    d1_all = _d1(ALL) + [{"k": "not", "arg": x} for x in D0_EXTRA] + [{"k": op, "args": [x, y]} for op in ("and", "or") for x in D0_EXTRA[:4] for y in (T, F)]
     core1 = list(CORE) + _d1(CORE)
     d2 = []
     for x in core1:
@@ -101,6 +107,9 @@ def _cfg_guard(g, mid="m"):
     """render_guard + computed params support."""
     if g["k"] in ("and", "or", "not"):
         return render_guard(g, mid)
+    if g["k"] == "pz":
+        val = copy.deepcopy(FALSY[g["idx"]])
+        return {"type": "p.z" + g["want"], "params": (lambda a, val=val: val) if g["computed"] else val}
     if g["k"] == "param" and g.get("computed"):
         want = g["params"]["want"]
         return {"type": guard_name(g), "params": (lambda a, want=want: {"want": want})}
@@ -194,6 +203,9 @@ def build_machine(g, position, gkey, tree="small"):
     return cfg
 
 
+_UNSET = object()
+
+
 def make_logic():
     from xstate_statemachine import MachineLogic
 
@@ -207,9 +219,18 @@ def make_logic():
         _LOG.append(("params", repr(params)))
         return bool(params["want"])
 
+    def g_zgot(c, e, params=_UNSET):
+        _LOG.append(("zparams", "<unset>" if params is _UNSET else repr(params)))
+        return params is not _UNSET and not params
+
+    def g_zlost(c, e, params=_UNSET):
+        _LOG.append(("zparams", "<unset>" if params is _UNSET else repr(params)))
+        return params is _UNSET
+
     return MachineLogic(
         actions={n: mark for n in ("first", "second", "anc", "c0", "pong")},
-        guards={"g.true": lambda c, e: True, "g.false": lambda c, e: False, "g.raise.r": g_raise, "p.x": g_param},
+        guards={"g.true": lambda c, e: True, "g.false": lambda c, e: False, "g.raise.r": g_raise, "p.x": g_param,
+                "p.zgot": g_zgot, "p.zlost": g_zlost},
     )
 
 
@@ -294,6 +315,8 @@ def atoms_for(active):
             return "missing"
         if k == "param":
             return bool(g["params"]["want"])
+        if k == "pz":
+            return g["want"] == "got"
         if k == "in":
             if g.get("abs_id"):
                 return g["abs_id"] in active
@@ -398,7 +421,7 @@ def _enum_worker(args):
                         if d >= 1 or contains(g, "raising") or contains(g, "missing"):
                             nt += 1
                             if len(samples) < 2 and d == 2:
-                                samples.append({"formula": _render(g) if not contains(g, "param") else str(g), "position": position, "key": gkey,
+                                samples.append({"formula": _render(g) if not (contains(g, "param") or contains(g, "pz")) else str(g), "position": position, "key": gkey,
                                                 "engine": engine, "acts": out.get("acts") if isinstance(out, dict) else None})
                         if bad and len(viol) < 30:
                             viol.append({"tag": _tag(engine, bad[0], g, position, gkey, form), "detail": bad[1],
@@ -503,6 +526,6 @@ def check_case(case) -> CaseResult:
     res.classes = [f"depth:{d}", "pos:" + position, "atoms:" + _shape(g)]
     if bad:
         res.violate(_tag(engine, bad[0], g, position, gkey, "gen"), bad[1])
-    res.sample = {"formula": str(_render(g))[:300] if not contains(g, "param") else str(g)[:300], "position": position,
+    res.sample = {"formula": str(_render(g))[:300] if not (contains(g, "param") or contains(g, "pz")) else str(g)[:300], "position": position,
                   "key": gkey, "engine": engine, "acts": out.get("acts")}
     return res
